@@ -1,8 +1,11 @@
 package main
 
 import (
+	"fmt"
 	"go/ast"
 	"go/token"
+	"sort"
+	"strings"
 )
 
 func init() { register(genThrottle) }
@@ -103,5 +106,607 @@ func genThrottle(c *ctx) *leanFile {
 	l.str("windowCmp", op, ok, "CheckBruteforce: `delta <op> maxBruteforceDurationThreshold` not found")
 	op, ok = cmpOf(findFunc(f, "memoryThrottler", "filterEntries"), "maxBruteforceAge", "delta")
 	l.str("ageCmp", op, ok, "filterEntries: `delta <op> maxBruteforceAge` not found")
+
+	genThrottleLocks(c, l, f)
 	return l
+}
+
+// ---------------------------------------------------------------------------
+// Atomicity facts: which accesses to the failure table (`clients`) a method of
+// memoryThrottler performs inside which critical section of its mutex (`mu`).
+//
+// For every method the analysis enumerates the control-flow paths through its body
+// (if/else, return; loops are taken as straight-line code and must not contain
+// locking) and records, per path, the sequence of critical sections:
+//   ("W", [...])  between mu.Lock()  and mu.Unlock() (or to the end with `defer`)
+//   ("R", [...])  between mu.RLock() and mu.RUnlock()
+//   ("-", [...])  accesses made while the mutex is not held
+// with the kinds of access to the table made inside, in order of first occurrence:
+// "read" (any mention of <recv>.clients) and "write" (assignment to an indexed
+// location or `delete(...)` in a function that mentions the table — inner maps are
+// reached through local aliases, so every indexed store counts).  A call of
+// another method of the receiver contributes that method's sections.  Anything the
+// analysis does not understand is reported as a failed pattern (broken tie).
+
+type thrSec struct {
+	mode string
+	acc  []string
+}
+
+type thrPath struct {
+	secs   []thrSec
+	open   bool // the last section is still held
+	sticky bool // ... and is released by a deferred unlock (at return)
+	done   bool // path has returned
+}
+
+func (p thrPath) clone() thrPath {
+	q := thrPath{open: p.open, sticky: p.sticky, done: p.done}
+	for _, s := range p.secs {
+		q.secs = append(q.secs, thrSec{mode: s.mode, acc: append([]string{}, s.acc...)})
+	}
+	return q
+}
+
+func (p thrPath) lean() string {
+	var secs []string
+	for _, s := range p.secs {
+		q := make([]string, len(s.acc))
+		for i, a := range s.acc {
+			q[i] = leanStr(a)
+		}
+		secs = append(secs, fmt.Sprintf("(%s, [%s])", leanStr(s.mode), strings.Join(q, ", ")))
+	}
+	return "[" + strings.Join(secs, ", ") + "]"
+}
+
+func (p thrPath) key() string {
+	return fmt.Sprintf("%s|%v|%v|%v", p.lean(), p.open, p.sticky, p.done)
+}
+
+func thrDedupe(ps []thrPath) []thrPath {
+	seen := map[string]bool{}
+	var out []thrPath
+	for _, p := range ps {
+		k := p.key()
+		if !seen[k] {
+			seen[k] = true
+			out = append(out, p)
+		}
+	}
+	return out
+}
+
+func (p *thrPath) access(kind string) {
+	if !p.open && (len(p.secs) == 0 || p.secs[len(p.secs)-1].mode != "-") {
+		p.secs = append(p.secs, thrSec{mode: "-"})
+	}
+	s := &p.secs[len(p.secs)-1]
+	for _, a := range s.acc {
+		if a == kind {
+			return
+		}
+	}
+	s.acc = append(s.acc, kind)
+}
+
+type thrAn struct {
+	f        *ast.File
+	recvType string
+	mu       string
+	table    string
+	memo     map[string][]thrPath
+	busy     map[string]bool
+	fails    []string
+}
+
+func (a *thrAn) fail(format string, args ...interface{}) {
+	a.fails = append(a.fails, fmt.Sprintf(format, args...))
+}
+
+type thrEvent struct {
+	kind string // "read", "write", "call", "lock", "rlock", "unlock", "runlock"
+	name string
+}
+
+func (a *thrAn) muCall(e ast.Expr, rv string) string {
+	call, ok := e.(*ast.CallExpr)
+	if !ok {
+		return ""
+	}
+	sel, ok := call.Fun.(*ast.SelectorExpr)
+	if !ok {
+		return ""
+	}
+	inner, ok := sel.X.(*ast.SelectorExpr)
+	if !ok || !isIdent(inner.X, rv) || inner.Sel.Name != a.mu {
+		return ""
+	}
+	return sel.Sel.Name
+}
+
+func thrMentions(n ast.Node, rv, field string) bool {
+	found := false
+	ast.Inspect(n, func(x ast.Node) bool {
+		if s, ok := x.(*ast.SelectorExpr); ok && isIdent(s.X, rv) && s.Sel.Name == field {
+			found = true
+		}
+		return !found
+	})
+	return found
+}
+
+// events lists the table accesses / method calls / mutex calls of a node in evaluation order
+// (function literals are not entered: they run later).
+func (a *thrAn) events(n ast.Node, rv string, hasTable bool) []thrEvent {
+	var out []thrEvent
+	var walk func(n ast.Node)
+	walk = func(n ast.Node) {
+		if n == nil {
+			return
+		}
+		ast.Inspect(n, func(x ast.Node) bool {
+			switch y := x.(type) {
+			case *ast.FuncLit:
+				return false
+			case *ast.AssignStmt:
+				for _, r := range y.Rhs {
+					walk(r)
+				}
+				store := false
+				for _, lh := range y.Lhs {
+					switch z := lh.(type) {
+					case *ast.IndexExpr:
+						walk(z.X)
+						walk(z.Index)
+						store = true
+					case *ast.SelectorExpr:
+						if isIdent(z.X, rv) && z.Sel.Name == a.table {
+							store = true
+						} else {
+							walk(z)
+						}
+					default:
+						walk(lh)
+					}
+				}
+				if store && hasTable {
+					out = append(out, thrEvent{kind: "write"})
+				}
+				return false
+			case *ast.IncDecStmt:
+				if ix, ok := y.X.(*ast.IndexExpr); ok {
+					walk(ix.X)
+					walk(ix.Index)
+					if hasTable {
+						out = append(out, thrEvent{kind: "write"})
+					}
+					return false
+				}
+			case *ast.CallExpr:
+				if m := a.muCall(y, rv); m != "" {
+					switch m {
+					case "Lock":
+						out = append(out, thrEvent{kind: "lock"})
+					case "RLock":
+						out = append(out, thrEvent{kind: "rlock"})
+					case "Unlock":
+						out = append(out, thrEvent{kind: "unlock"})
+					case "RUnlock":
+						out = append(out, thrEvent{kind: "runlock"})
+					default:
+						out = append(out, thrEvent{kind: "mu?", name: m})
+					}
+					return false
+				}
+				if isIdent(y.Fun, "delete") {
+					for _, arg := range y.Args {
+						walk(arg)
+					}
+					if hasTable {
+						out = append(out, thrEvent{kind: "write"})
+					}
+					return false
+				}
+				if sel, ok := y.Fun.(*ast.SelectorExpr); ok && isIdent(sel.X, rv) && findFunc(a.f, a.recvType, sel.Sel.Name) != nil {
+					for _, arg := range y.Args {
+						walk(arg)
+					}
+					out = append(out, thrEvent{kind: "call", name: sel.Sel.Name})
+					return false
+				}
+			case *ast.SelectorExpr:
+				if isIdent(y.X, rv) && y.Sel.Name == a.table {
+					out = append(out, thrEvent{kind: "read"})
+					return false
+				}
+				if isIdent(y.X, rv) && y.Sel.Name == a.mu {
+					// the mutex used in a way other than <recv>.mu.<Method>()
+					out = append(out, thrEvent{kind: "mu?", name: "value"})
+					return false
+				}
+			}
+			return true
+		})
+	}
+	walk(n)
+	return out
+}
+
+func (a *thrAn) apply(fn string, ps []thrPath, evs []thrEvent, depth int) []thrPath {
+	for _, ev := range evs {
+		var next []thrPath
+		for _, p := range ps {
+			if p.done {
+				next = append(next, p)
+				continue
+			}
+			switch ev.kind {
+			case "read", "write":
+				p = p.clone()
+				p.access(ev.kind)
+				next = append(next, p)
+			case "lock", "rlock":
+				if p.open {
+					a.fail("%s: mutex taken while it is already held", fn)
+				}
+				p = p.clone()
+				mode := "W"
+				if ev.kind == "rlock" {
+					mode = "R"
+				}
+				p.secs = append(p.secs, thrSec{mode: mode})
+				p.open, p.sticky = true, false
+				next = append(next, p)
+			case "unlock", "runlock":
+				want := "W"
+				if ev.kind == "runlock" {
+					want = "R"
+				}
+				if !p.open || p.secs[len(p.secs)-1].mode != want {
+					a.fail("%s: %s without the matching lock", fn, ev.kind)
+				}
+				p = p.clone()
+				p.open, p.sticky = false, false
+				next = append(next, p)
+			case "call":
+				for _, cp := range a.paths(ev.name, depth+1) {
+					q := p.clone()
+					for _, s := range cp.secs {
+						if s.mode == "-" {
+							for _, k := range s.acc {
+								q.access(k)
+							}
+							continue
+						}
+						if q.open {
+							a.fail("%s: calls %s (which takes the mutex) while holding it", fn, ev.name)
+						}
+						q.secs = append(q.secs, thrSec{mode: s.mode, acc: append([]string{}, s.acc...)})
+					}
+					next = append(next, q)
+				}
+			default:
+				a.fail("%s: use of the mutex not understood (%s)", fn, ev.name)
+				next = append(next, p)
+			}
+		}
+		ps = thrDedupe(next)
+	}
+	return ps
+}
+
+func thrHasReturn(n ast.Node) bool {
+	found := false
+	ast.Inspect(n, func(x ast.Node) bool {
+		switch x.(type) {
+		case *ast.FuncLit:
+			return false
+		case *ast.ReturnStmt:
+			found = true
+		}
+		return !found
+	})
+	return found
+}
+
+func (a *thrAn) stmts(fn string, ps []thrPath, list []ast.Stmt, rv string, hasTable bool, depth int) []thrPath {
+	for _, s := range list {
+		ps = a.stmt(fn, ps, s, rv, hasTable, depth)
+	}
+	return ps
+}
+
+func (a *thrAn) stmt(fn string, ps []thrPath, s ast.Stmt, rv string, hasTable bool, depth int) []thrPath {
+	switch x := s.(type) {
+	case nil:
+		return ps
+	case *ast.BlockStmt:
+		return a.stmts(fn, ps, x.List, rv, hasTable, depth)
+	case *ast.DeferStmt:
+		if m := a.muCall(x.Call, rv); m != "" {
+			var next []thrPath
+			for _, p := range ps {
+				if !p.done {
+					want := map[string]string{"Unlock": "W", "RUnlock": "R"}[m]
+					if !p.open || want == "" || p.secs[len(p.secs)-1].mode != want {
+						a.fail("%s: deferred %s without the matching lock", fn, m)
+					}
+					p = p.clone()
+					p.sticky = true
+				}
+				next = append(next, p)
+			}
+			return next
+		}
+		return a.apply(fn, ps, a.events(x.Call, rv, hasTable), depth)
+	case *ast.IfStmt:
+		ps = a.stmt(fn, ps, x.Init, rv, hasTable, depth)
+		ps = a.apply(fn, ps, a.events(x.Cond, rv, hasTable), depth)
+		thenPs := a.stmts(fn, ps, x.Body.List, rv, hasTable, depth)
+		elsePs := ps
+		if x.Else != nil {
+			elsePs = a.stmt(fn, ps, x.Else, rv, hasTable, depth)
+		}
+		return thrDedupe(append(append([]thrPath{}, thenPs...), elsePs...))
+	case *ast.ReturnStmt:
+		ps = a.apply(fn, ps, a.events(x, rv, hasTable), depth)
+		var next []thrPath
+		for _, p := range ps {
+			if !p.done {
+				p = p.clone()
+				p.done = true
+			}
+			next = append(next, p)
+		}
+		return thrDedupe(next)
+	case *ast.ForStmt, *ast.RangeStmt, *ast.SwitchStmt, *ast.TypeSwitchStmt, *ast.SelectStmt:
+		evs := a.events(x, rv, hasTable)
+		for _, ev := range evs {
+			locking := ev.kind != "read" && ev.kind != "write" && ev.kind != "call"
+			if ev.kind == "call" {
+				for _, cp := range a.paths(ev.name, depth+1) {
+					for _, sec := range cp.secs {
+						if sec.mode != "-" {
+							locking = true
+						}
+					}
+				}
+			}
+			if locking {
+				a.fail("%s: locking inside a loop/switch is not understood", fn)
+			}
+		}
+		out := a.apply(fn, ps, evs, depth)
+		if thrHasReturn(x) {
+			var fork []thrPath
+			for _, p := range out {
+				if !p.done {
+					q := p.clone()
+					q.done = true
+					fork = append(fork, q)
+				}
+			}
+			out = thrDedupe(append(out, fork...))
+		}
+		return out
+	case *ast.GoStmt:
+		a.fail("%s: go statement not understood", fn)
+		return ps
+	default:
+		return a.apply(fn, ps, a.events(s, rv, hasTable), depth)
+	}
+}
+
+// paths returns the section sequences of all control-flow paths of method fn.
+func (a *thrAn) paths(fn string, depth int) []thrPath {
+	if ps, ok := a.memo[fn]; ok {
+		return ps
+	}
+	fd := findFunc(a.f, a.recvType, fn)
+	if fd == nil || fd.Body == nil || fd.Recv == nil || len(fd.Recv.List) != 1 || len(fd.Recv.List[0].Names) != 1 {
+		a.fail("method %s.%s not found", a.recvType, fn)
+		return nil
+	}
+	if a.busy[fn] || depth > 8 {
+		a.fail("%s: recursion not understood", fn)
+		return nil
+	}
+	a.busy[fn] = true
+	rv := fd.Recv.List[0].Names[0].Name
+	hasTable := thrMentions(fd.Body, rv, a.table)
+	ps := a.stmts(fn, []thrPath{{}}, fd.Body.List, rv, hasTable, depth)
+	var out []thrPath
+	for _, p := range ps {
+		if p.open && !p.sticky {
+			a.fail("%s: a path ends with the mutex held", fn)
+		}
+		q := p.clone()
+		q.open, q.sticky, q.done = false, false, false
+		out = append(out, q)
+	}
+	out = thrDedupe(out)
+	sort.Slice(out, func(i, j int) bool { return out[i].lean() < out[j].lean() })
+	a.busy[fn] = false
+	a.memo[fn] = out
+	return out
+}
+
+func genThrottleLocks(c *ctx, l *leanFile, f *ast.File) {
+	const recvType, mu, table = "memoryThrottler", "mu", "clients"
+	// the struct has the two fields
+	okStruct := false
+	if f != nil {
+		ast.Inspect(f, func(n ast.Node) bool {
+			ts, ok := n.(*ast.TypeSpec)
+			if !ok || ts.Name.Name != recvType {
+				return true
+			}
+			st, ok := ts.Type.(*ast.StructType)
+			if !ok {
+				return false
+			}
+			okMu, okTable := false, false
+			for _, fld := range st.Fields.List {
+				for _, nm := range fld.Names {
+					if nm.Name == mu && (isSel(fld.Type, "sync", "RWMutex") || isSel(fld.Type, "sync", "Mutex")) {
+						okMu = true
+					}
+					if nm.Name == table {
+						okTable = true
+					}
+				}
+			}
+			okStruct = okMu && okTable
+			return false
+		})
+	}
+
+	// every function of the file that touches the table (selector `<x>.clients`)
+	var accessors []string
+	if f != nil {
+		for _, d := range f.Decls {
+			fd, ok := d.(*ast.FuncDecl)
+			if !ok || fd.Body == nil {
+				continue
+			}
+			touched := false
+			ast.Inspect(fd.Body, func(n ast.Node) bool {
+				if s, ok := n.(*ast.SelectorExpr); ok && s.Sel.Name == table {
+					touched = true
+				}
+				return !touched
+			})
+			if touched {
+				name := fd.Name.Name
+				if fd.Recv != nil && len(fd.Recv.List) == 1 {
+					t := fd.Recv.List[0].Type
+					if s, ok := t.(*ast.StarExpr); ok {
+						t = s.X
+					}
+					if id, ok := t.(*ast.Ident); ok && id.Name != recvType {
+						name = id.Name + "." + name
+					}
+				} else {
+					name = "func " + name
+				}
+				accessors = append(accessors, name)
+			}
+		}
+	}
+	sort.Strings(accessors)
+	l.strList("tableAccessors", accessors, okStruct, "struct memoryThrottler with fields mu (sync.RWMutex) and clients not found")
+
+	an := &thrAn{f: f, recvType: recvType, mu: mu, table: table, memo: map[string][]thrPath{}, busy: map[string]bool{}}
+	for _, m := range []struct{ fact, fn string }{
+		{"getEntriesPaths", "getEntries"}, {"setEntriesPaths", "setEntries"}, {"addEntryPaths", "addEntry"},
+		{"cleanupPaths", "cleanup"}, {"throttlePaths", "throttle"}, {"checkBruteforcePaths", "CheckBruteforce"},
+	} {
+		an.fails = nil
+		var ps []thrPath
+		if f != nil {
+			ps = an.paths(m.fn, 0)
+		} else {
+			an.fail("throttle.go not readable")
+		}
+		l.fact(m.fact)
+		if len(an.fails) > 0 || len(ps) == 0 {
+			why := "no path found"
+			if len(an.fails) > 0 {
+				why = an.fails[0]
+			}
+			l.fail(m.fact + ": " + why)
+			l.raw(fmt.Sprintf("def %s : List (List (String × List String)) := [] -- EXTRACTION FAILED: %s", m.fact, why))
+			// a failed analysis must not be served from the memo to the next fact as if it were fine
+			an.memo = map[string][]thrPath{}
+			continue
+		}
+		q := make([]string, len(ps))
+		for i, p := range ps {
+			q[i] = p.lean()
+		}
+		l.raw(fmt.Sprintf("def %s : List (List (String × List String)) := [%s]", m.fact, strings.Join(q, ", ")))
+	}
+
+	// CheckBruteforce writes the list it read earlier back only when pruning removed something:
+	//   entries := t.getEntries(..); l := len(entries); if l == 0 { return .. } ...
+	//   newEntries := t.filterEntries(entries, now)
+	//   if newl := len(newEntries); newl == 0 { t.setEntries(.., nil); return .. } else if newl != l { t.setEntries(.., newEntries) }
+	guardOK, guardFound := false, false
+	if fd := findFunc(f, recvType, "CheckBruteforce"); fd != nil && fd.Body != nil && fd.Recv != nil && len(fd.Recv.List[0].Names) == 1 {
+		guardFound = true
+		rv := fd.Recv.List[0].Names[0].Name
+		defined := func(name, rhs string) token.Pos {
+			pos := token.NoPos
+			n := 0
+			ast.Inspect(fd.Body, func(x ast.Node) bool {
+				if as, ok := x.(*ast.AssignStmt); ok {
+					for i, lh := range as.Lhs {
+						if isIdent(lh, name) {
+							n++
+							if len(as.Lhs) == len(as.Rhs) && as.Tok == token.DEFINE && nodeText(c, as.Rhs[i]) == rhs {
+								pos = as.Pos()
+							}
+						}
+					}
+				}
+				return true
+			})
+			if n != 1 {
+				return token.NoPos // assigned more than once: not the simple shape
+			}
+			return pos
+		}
+		pEntries := defined("entries", rv+".getEntries(client, action)")
+		pL := defined("l", "len(entries)")
+		pNew := defined("newEntries", rv+".filterEntries(entries, now)")
+		pNewl := defined("newl", "len(newEntries)")
+		// early return for an empty list, before the filter
+		emptyReturn := false
+		ast.Inspect(fd.Body, func(x ast.Node) bool {
+			if ifs, ok := x.(*ast.IfStmt); ok && nodeText(c, ifs.Cond) == "l == 0" && ifs.Pos() < pNew && ifs.Pos() > pL {
+				if n := len(ifs.Body.List); n > 0 {
+					if _, ok := ifs.Body.List[n-1].(*ast.ReturnStmt); ok {
+						emptyReturn = true
+					}
+				}
+			}
+			return true
+		})
+		calls, good := 0, 0
+		ast.Inspect(fd.Body, func(x ast.Node) bool {
+			call, ok := x.(*ast.CallExpr)
+			if !ok {
+				return true
+			}
+			sel, ok := call.Fun.(*ast.SelectorExpr)
+			if !ok || !isIdent(sel.X, rv) || sel.Sel.Name != "setEntries" {
+				return true
+			}
+			calls++
+			if len(call.Args) != 3 || call.Pos() < pNew {
+				return true
+			}
+			ifs := enclosingIfs(fd, call)
+			if len(ifs) == 0 {
+				return true
+			}
+			inner := ifs[len(ifs)-1]
+			inBody := inner.Body.Pos() <= call.Pos() && call.End() <= inner.Body.End()
+			cond := nodeText(c, inner.Cond)
+			arg := nodeText(c, call.Args[2])
+			initOK := false
+			for _, e := range ifs {
+				if e.Init != nil && e.Init.Pos() == pNewl {
+					initOK = true
+				}
+			}
+			if inBody && initOK && ((arg == "nil" && cond == "newl == 0") || (arg == "newEntries" && cond == "newl != l")) {
+				good++
+			}
+			return true
+		})
+		guardOK = pEntries != token.NoPos && pL > pEntries && pNew > pL && pNewl > pNew && emptyReturn && calls > 0 && calls == good
+	}
+	l.boolean("writeBackOnlyIfPruned", guardOK, guardFound, "memoryThrottler.CheckBruteforce not found")
 }
